@@ -41,8 +41,7 @@ func layoutDoc(layout, para string) (*model.Document, []string) {
 
 // ---- (chunker) layout-based Chunker: Chunk and ChunkWithOverlapEnabled ----------------------
 
-func chunkerSpace(e *harness.Env) {
-	L := 2
+func chunkerSpace(e *harness.Env, L int) {
 	layouts := []string{"single", "pre", "h1"}
 	forTexts(allAlpha(), 1, L, []int{1, 8, 40}, func(t *text) {
 		for _, layout := range layouts {
@@ -76,11 +75,11 @@ func chunkerSpace(e *harness.Env) {
 						e.Begin(desc)
 						sig, det := harness.Guard(func() { base, err = rag.NewChunkerWithConfig(cfg).Chunk(doc) })
 						if sig != "" {
-							e.Fail(desc, sig, det, files)
+							fail(e, desc, sig, det, files)
 							continue
 						}
 						if err != nil || base == nil {
-							e.Fail(desc, "chunk-error", fmt.Sprintf("Chunk returned error %v", err), files)
+							fail(e, desc, "chunk-error", fmt.Sprintf("Chunk returned error %v", err), files)
 							continue
 						}
 						own := make([]string, len(base.Chunks))
@@ -113,7 +112,7 @@ func chunkerSpace(e *harness.Env) {
 							}
 						}
 						if sig != "" {
-							e.Fail(desc, sig, det, files)
+							fail(e, desc, sig, det, files)
 							continue
 						}
 						oc := fmt.Sprintf("chunker:chunks=%s:overlapped=%s", bucket(len(own)), bucket(n))
@@ -130,8 +129,7 @@ func chunkerSpace(e *harness.Env) {
 
 // ---- (docchunk) element-based DocumentChunker: ChunkDocumentWithConfig -----------------------
 
-func docChunkSpace(e *harness.Env) {
-	L := 2
+func docChunkSpace(e *harness.Env, L int) {
 	forTexts(allAlpha(), 1, L, []int{1, 8, 40}, func(t *text) {
 		for _, layout := range []string{"single", "two"} {
 			forSizeGrid("space=docchunk "+t.part()+" layout="+layout, 1, func(desc string, u unitV, lim int, tp tpcV) {
@@ -156,11 +154,11 @@ func docChunkSpace(e *harness.Env) {
 				})
 				files := map[string][]byte{"paragraph.txt": []byte(t.s)}
 				if sig != "" {
-					e.Fail(desc, sig, det, files)
+					fail(e, desc, sig, det, files)
 					return
 				}
 				if coll == nil {
-					e.Fail(desc, "chunk-error", "ChunkDocumentWithConfig returned nil", files)
+					fail(e, desc, "chunk-error", "ChunkDocumentWithConfig returned nil", files)
 					return
 				}
 				texts := make([]string, len(coll.Chunks))
@@ -170,7 +168,7 @@ func docChunkSpace(e *harness.Env) {
 				joined := strings.Join(paras, "\n\n")
 				bound := boundApplies(u.u, lim, maxSpaceGap(joined))
 				if sig, det := checkPieces(stripWS(joined), texts, bound, u.u, lim, tp.v); sig != "" {
-					e.Fail(desc, sig, det, files)
+					fail(e, desc, sig, det, files)
 					return
 				}
 				oc := "docchunk:chunks=" + bucket(len(texts))
